@@ -315,7 +315,10 @@ def dumpContract (s : CState) (users : List String) : Json :=
     ("admin", jOpt Json.str s.admin),
     ("owner_min_time", jOpt jStrNat s.st.ownerMinTime),
     ("pending_owner", jOpt Json.str s.st.pendingOwner),
-    ("version", Json.mkObj [("contract", .str s.version.1), ("version", .str s.version.2)])]
+    ("version", Json.mkObj [("contract", .str s.version.1), ("version", .str s.version.2)]),
+    ("raw_totals", Json.mkObj [("total_native_token", jStrNat s.st.totalNative),
+      ("total_liquid_stake_token", jStrNat s.st.totalLst), ("total_reward_amount", jStrNat s.st.totalReward),
+      ("total_fees", jStrNat s.st.totalFees)])]
 
 def jPktState : PktState → String
   | .pending => "pending" | .delivered => "delivered" | .refunded => "refunded"
